@@ -214,7 +214,17 @@ def run_case(case):
         src = dict(kind="rec", lengths=lengths)
     else:
         spec = S.rand_gen(case["spec_seed"], n_min=2, n_max=5)
-        if rnd.random() < 0.4:  # a trainable connection: window extension
+        if case.get("logger"):
+            # a sink that only listens to the supervisor with zero delays (its steps tie exactly with the supervisor steps they depend on),
+            # next to a sensor with ordinary delays that keeps ticking after the last supervisor step
+            r = rnd.choice([5, 10, 20])
+            spec = dict(seed=case["spec_seed"], supervisor="sup", logger=True, nodes=[
+                dict(name="sensor", rate=r * rnd.choice([1, 2]), delay=["det", 0.01], scheduling="F", advance=False),
+                dict(name="sup", rate=r, delay=["det", 0.0], scheduling="F", advance=False),
+                dict(name="logger", rate=r, delay=["det", 0.0], scheduling="F", advance=False)],
+                conns=[dict(out="sensor", inp="sup", window=rnd.randint(1, 2), skip=False, blocking=False, jitter="L", delay=["det", 0.01]),
+                       dict(out="sup", inp="logger", window=1, skip=False, blocking=False, jitter="L", delay=["det", 0.0])])
+        elif rnd.random() < 0.4:  # a trainable connection: window extension
             c = rnd.choice([c for c in spec["conns"]])
             rate = [n for n in spec["nodes"] if n["name"] == c["out"]][0]["rate"]
             mx = round(rnd.uniform(0.5, 2.5) / rate, 4)
@@ -229,7 +239,7 @@ def run_case(case):
     pairs = rnd.sample([(m, p) for m in ("mcs", "gen", "top") for p in (True, False)], 2)
     if spec.get("fast_ratio"):
         pairs[0] = (rnd.choice(["gen", "top"]), pairs[0][1])
-    if case.get("tie"):
+    if case.get("tie") or case.get("logger"):
         pairs = [("mcs", False), (rnd.choice(["gen", "top"]), False)]
     S_prev = None
     for mode, prune in pairs:
@@ -290,5 +300,6 @@ def plan(tier, seed):
     nr, ng = (14, 14) if tier == "quick" else (300, 300)
     cases = [dict(name=f"rec-{i}", kind="rec", spec_seed=seed * 100109 + i, timeout=600) for i in range(nr)]
     cases += [dict(name=f"tie-{i}", kind="rec", tie=True, spec_seed=seed * 100109 + 6000 + i, timeout=600) for i in range(6 if tier == "quick" else 60)]
+    cases += [dict(name=f"logger-{i}", kind="gen", logger=True, spec_seed=seed * 100109 + 8000 + i, timeout=600) for i in range(3 if tier == "quick" else 30)]
     cases += [dict(name=f"gen-{i}", kind="gen", spec_seed=seed * 100109 + 3000 + i, timeout=600) for i in range(ng)]
     return cases
